@@ -37,6 +37,9 @@ for n in names:
         out = p.stdout.decode('utf-8', 'replace')
         sigs = [l.strip() for l in out.split('\n') if l.strip().startswith('signature=')]
         res[n] = {'exit': p.returncode, 'signatures': len(sigs), 'first': sigs[0][:160] if sigs else None}
+        if p.returncode not in (0, 1):
+            res[n]['tail'] = out[-1500:]
+            print(out[-1500:], flush=True)
         print(n, pid, tier, 'exit', p.returncode, len(sigs), 'signatures', (sigs[0][:120] if sigs else ''), flush=True)
     finally:
         subprocess.run('git -C /repo worktree remove --force %s' % wt, shell=True)
